@@ -260,13 +260,26 @@ def m_tab(pre, ev, post):
 
 # ------------------------------------------------------------------ drain and final-state oracle
 
+def _pending_sas(w):
+    out = []
+    for ep in w.endpoints.values():
+        if live(ep):
+            for sa in ep.controller.ike_sas:
+                if sa.pending_events and sa.state == State.ESTABLISHED:
+                    out.append(sa)
+    return out
+
+
 def drain(world, horizon=90.0, max_steps=400):
     """Deterministic lossless continuation: deliver FIFO; when nothing is in flight but a request is
-    outstanding, advance the clock to the next retransmission deadline.  Returns (world, status)."""
+    outstanding, advance the clock to the next retransmission deadline; when local events are still queued on an
+    idle IKE_SA (they are replayed when the next response arrives), advance to that IKE_SA's next DPD probe.
+    Returns (world, status)."""
     w = world.fork()
     w.budget = {}
     t_end = w.clock + horizon
     steps = 0
+    waited_for_dpd = 0
     while steps < max_steps:
         steps += 1
         if w.net:
@@ -274,7 +287,14 @@ def drain(world, horizon=90.0, max_steps=400):
             continue
         dl = next_retransmit_deadline(w)
         if dl is None:
-            return w, 'quiescent'
+            pend = _pending_sas(w)
+            if pend and waited_for_dpd < 3:
+                waited_for_dpd += 1
+                nxt = min(sa.start_dpd_at for sa in pend)
+                t_end = max(t_end, nxt + horizon)
+                w.step(('tick', max(0.0, nxt - w.clock) + 0.01))
+                continue
+            return w, ('quiescent' if not pend else 'queued-events-never-processed')
         if dl > t_end:
             return w, 'horizon'
         w.step(('tick', max(0.0, dl - w.clock) + 0.01))
